@@ -1011,6 +1011,9 @@ func (a *analysis) oracleC15() verdict {
 		if len(lines) > 0 {
 			return a.fv("debug-without-error", "no render returned an error, yet the debug output holds %q", dbg)
 		}
+		if k := a.rr.faultsReturned.Load(); k > 0 {
+			return a.fv("error-swallowed:"+a.faultSite(), "a filler/extender returned an error %d time(s) (%v) but no render cycle failed: the container kept rendering", k, a.faultErrText())
+		}
 		return held(false)
 	}
 	site := a.faultSite()
@@ -1018,6 +1021,11 @@ func (a *analysis) oracleC15() verdict {
 		return a.fv(fmt.Sprintf("debug-lines:%d:%s", len(lines), site), "a render cycle failed (%s): debug output must hold the error exactly once, it holds %d lines: %q", site, len(lines), dbg)
 	}
 	want := errFill.Error()
+	for _, b := range sc.Bars {
+		if b.FailAt > 0 || b.ExtFailAt > 0 {
+			want = scriptedErr(b.ErrKind).Error()
+		}
+	}
 	if sc.OutFailAt > 0 && site == "output" {
 		want = errOut.Error()
 	}
@@ -1095,6 +1103,15 @@ func (a *analysis) notifierAfterError(site string) *verdict {
 		}
 	}
 	return nil
+}
+
+func (a *analysis) faultErrText() string {
+	for _, b := range a.sc.Bars {
+		if b.FailAt > 0 || b.ExtFailAt > 0 {
+			return scriptedErr(b.ErrKind).Error()
+		}
+	}
+	return ""
 }
 
 func (a *analysis) faultHappened() bool {
